@@ -21,7 +21,9 @@ def IRR(
     """
     # `guess` is not used, but unnecessary, since it is a pure perforamnce
     # optimization.
-    return npf.irr(xl.flatten(values))
+    values = xl.flatten(values)
+    _raise_first_error(values)
+    return npf.irr(values)
 
 
 @xl.register()
@@ -222,6 +224,14 @@ def VDB(
     return result
 
 
+def _raise_first_error(*ranges):
+    """An error value among the cells of a cash-flow range is the result."""
+    for values in ranges:
+        for value in xl.flatten(values):
+            if isinstance(value, xlerrors.ExcelError):
+                raise value
+
+
 def _xnpv(rate, values, dates):
     if rate <= -1.0:
         return float('inf')
@@ -269,6 +279,7 @@ def XIRR(
         algorithm-of-xirr-funcation
     """
 
+    _raise_first_error(values, dates)
     values = values.flatten(func_xltypes.Number, None)
     dates = dates.flatten(func_xltypes.DateTime, None)
     # need to cast dates and guess to Python types else optimizer complains
@@ -311,6 +322,7 @@ def XNPV(
     https://support.microsoft.com/en-us/office/
         xnpv-function-1b42bbf6-370f-4532-a0eb-d67c16b664b7
     """
+    _raise_first_error(values, dates)
     values = values.flatten(func_xltypes.Number, None)
     dates = dates.flatten(func_xltypes.DateTime, None)
 
